@@ -7,6 +7,7 @@ import (
 	"sort"
 	"strconv"
 	"strings"
+	"sync"
 
 	"golang.org/x/mod/modfile"
 	"golang.org/x/mod/module"
@@ -269,6 +270,36 @@ func Run(r *fw.Run) {
 			}
 		}
 		r.Merge(l)
+	}
+	// dense length sweep: a token, a comment and a quoted string of every length 0..enum.DenseMax
+	{
+		var mu sync.Mutex
+		dslots := [][2]string{{"a ", " b\n"}, {"a b //", "\n"}, {"x \"", "\" y\n"}, {"a (\n\tb ", " // c\n)\n"}}
+		r.Bounds["dense_length_sweep"] = fmt.Sprintf("%d slots x every fill length 0..%d", len(dslots), enum.DenseMax)
+		fw.Parallel(16, func(sh int) {
+			l := fw.NewLocal()
+			defer r.Merge(l)
+			enum.EachLength('k', enum.DenseMax, func(f string) {
+				if len(f)%16 != sh {
+					return
+				}
+				for si, sl := range dslots {
+					b := []byte(sl[0] + f + sl[1])
+					l.States++
+					l.Transitions++
+					l.Execs++
+					msg, acc := syntaxCase(b)
+					if acc {
+						l.Nontrivial++
+					}
+					if msg != "" {
+						mu.Lock()
+						r.Violation(fmt.Sprintf("syntax:dense:%d:%d", si, len(f)), msg, caseT{Layer: "syntax", Input: strconv.QuoteToASCII(string(b))})
+						mu.Unlock()
+					}
+				}
+			})
+		})
 	}
 
 	// directive layer
